@@ -67,9 +67,13 @@ def criterion(method, sigma, n_sub, keep):
     return score
 
 
-def make_problem(rng, n_basis=None):
+def make_problem(rng, n_basis=None, tiny=False):
     n_cond = int(rng.integers(5, 9))
     n_basis = n_basis or int(rng.integers(2, 5))
+    if tiny:
+        # as many basis RDMs as (centred) dissimilarities: the regression is rank deficient, the optimum is not
+        # unique, and the active-set iteration runs on rounding noise -- it must still terminate with a maximiser
+        n_cond, n_basis = int(rng.integers(3, 5)), 3
     n_train = int(rng.integers(1, 5))
     basis = gen.rdm_vectors(rng, n_basis, n_cond, gen.pick(rng, ['pos', 'eucl']))
     w = rng.uniform(0, 2, size=n_basis)
@@ -79,7 +83,7 @@ def make_problem(rng, n_basis=None):
     data = (w @ basis + 0.4 * rng.standard_normal((n_train, basis.shape[1]))) * scales
     if rng.integers(3) == 0:
         data = data + rng.uniform(0, 3, size=(n_train, 1))
-    selk = gen.pick(rng, ['all', 'subset', 'bootstrap', 'bootstrap'])
+    selk = 'all' if tiny else gen.pick(rng, ['all', 'subset', 'bootstrap', 'bootstrap'])
     labels = [int(v) for v in rng.permutation(n_cond) * 3 + 2]   # non-0-based condition labels
     desc = gen.pick(rng, ['index', 'cond'])
     lab = list(range(n_cond)) if desc == 'index' else labels
@@ -120,12 +124,63 @@ def call_fitter(fname, model, data_obj, prob, method, sigma, normalize):
              fit_optimize_positive=fit_optimize_positive, fit_select=fit_select, fit_interpolate=fit_interpolate)[fname]
     if fname in ('fit_regress', 'fit_regress_nn', 'fit_optimize', 'fit_optimize_positive'):
         kw['normalize'] = normalize
+    if fname == 'fit_regress_nn':
+        with cycle_guard():
+            return f(model, data_obj, **kw)
     return f(model, data_obj, **kw)
+
+
+class ActiveSetCycle(Exception):
+    """the deterministic active-set iteration of _nn_least_squares revisited a state: it can never terminate"""
+
+
+class cycle_guard:
+    """logical non-termination detector (no wall clock): a line tracer on the frame of the library's
+    _nn_least_squares records the state (active set p, weights x, gradient w) each time the outer `while` is
+    evaluated; the iteration is deterministic, so a repeated state is a proof of an infinite loop"""
+
+    def __enter__(self):
+        import sys
+        from rsatoolbox.model import fitter as _f
+        code = _f._nn_least_squares.__code__
+        src_first = code.co_firstlineno
+        import inspect
+        lines = inspect.getsource(_f._nn_least_squares).splitlines()
+        heads = [src_first + i for i, ln in enumerate(lines) if ln.strip().startswith('while (not np.all(p))')]
+        self.head = heads[0] if heads else None
+        self.prev = sys.gettrace()
+
+        def local(frame, event, arg):
+            if event == 'line' and frame.f_lineno == self.head:
+                loc = frame.f_locals
+                key = (loc['p'].tobytes(), loc['x'].tobytes(), loc['w'].tobytes())
+                st = self.states.setdefault(id(frame), set())
+                if key in st:
+                    raise ActiveSetCycle(f'state repeated after {len(st)} iterations: p={loc["p"].tolist()} '
+                                         f'x={loc["x"].tolist()}')
+                st.add(key)
+            return local
+
+        def glob(frame, event, arg):
+            if event == 'call' and frame.f_code is code and self.head is not None:
+                return local
+            return None
+        self.states = {}
+        sys.settrace(glob)
+        return self
+
+    def __exit__(self, *exc):
+        import sys
+        sys.settrace(self.prev)
+        return False
 
 
 def run_weighted(ctx, fname):
     rng = ctx.rng
-    prob = make_problem(rng)
+    tiny = fname == 'fit_regress_nn' and rng.integers(5) == 0
+    prob = make_problem(rng, tiny=tiny)
+    if tiny:
+        prob['selk'], prob['pos'] = 'all', list(range(prob['n_cond']))
     method = gen.pick(rng, ['cosine', 'corr', 'cosine_cov', 'corr_cov'])
     n_sub = len(prob['pos'])
     sk = gen.pick(rng, ['none', 'none', 'matrix']) if method.endswith('_cov') else 'none'  # the fitters document a matrix
@@ -143,7 +198,12 @@ def run_weighted(ctx, fname):
     data_sub = np.array([sub(d, prob) for d in prob['data']])
     basis_sub = np.array([sub(b, prob) for b in prob['basis']])
     keep = ~np.isnan(data_sub[0])
-    if keep.sum() < prob['n_basis'] + 2 or any(np.ptp(d[keep]) < 1e-9 for d in data_sub) or \
+    if tiny:
+        if any(np.ptp(d[keep]) < 1e-9 for d in data_sub):
+            ctx.count('rejected_degenerate')
+            return
+        ctx.count('rank_deficient_designs')
+    elif keep.sum() < prob['n_basis'] + 2 or any(np.ptp(d[keep]) < 1e-9 for d in data_sub) or \
             np.linalg.matrix_rank(basis_sub[:, keep] - (basis_sub[:, keep].mean(axis=1, keepdims=True)
                                                         if method.startswith('corr') else 0)) < prob['n_basis']:
         ctx.count('rejected_degenerate')
@@ -151,14 +211,16 @@ def run_weighted(ctx, fname):
     if prob['selk'] == 'bootstrap' and len(set(prob['pos'])) < len(prob['pos']):
         ctx.count('bootstrap_selections')
     sig = dict(fitter=fname, method=method, sigma=sk, selection=prob['selk'], normalize=normalize,
-               desc=prob['desc'], n_basis=prob['n_basis'])
+               desc=prob['desc'], n_basis=prob['n_basis'], rank_deficient=bool(tiny))
     wit = lambda **k: dict(basis=prob['basis'], data=prob['data'], pos=prob['pos'], labels=prob['labels'],  # noqa
                            desc=prob['desc'], method=method, sigma_k=sigma, fitter=fname, **k)
     model = ModelWeighted('w', model_rdms(prob))
     np.random.seed(int(rng.integers(2 ** 31)))   # fit_optimize draws its start points from the global RNG
     ok, theta = ctx.guarded('optimal:' + fname, sig, call_fitter, fname, model, data_rdms(prob), prob, method, sigma,
-                            normalize, data=wit)
+                            normalize, data=wit, expect_exc=(np.linalg.LinAlgError,) if tiny else ())
     if not ok:
+        if tiny and isinstance(theta, np.linalg.LinAlgError):
+            ctx.count('rejected_singular')    # an exactly singular normal matrix is refused, not mis-solved
         return
     theta = np.asarray(theta, dtype=float).ravel()
     ctx.case('optimal:' + fname, sig, sample={'fitter': fname, 'method': method, 'selection': prob['pos'],
@@ -445,7 +507,54 @@ def run_model_laws(ctx):
         ctx.fail('model_laws', dict(sig, exception=type(exc).__name__), repr(exc), wit())
 
 
+def run_rank_deficient(ctx):
+    """fit_regress_nn on the smallest rank-deficient designs (3 conditions = 3 dissimilarities, 3 basis RDMs, centred
+    by 'corr'): the call must terminate (logical cycle detector, no wall clock), give non-negative finite weights and
+    not be beaten by non-negative competitors"""
+    rng = ctx.rng
+    n_cond = 3
+    npair = 3
+    basis = rng.uniform(0.05, 3.0, size=(3, npair))
+    n_train = int(rng.integers(1, 3))
+    data = rng.uniform(0.05, 3.0, size=(n_train, npair))
+    method = gen.pick(rng, ['corr', 'corr', 'cosine'])
+    sig = dict(fitter='fit_regress_nn', method=method, rank_deficient=True, direct=True)
+    wit = lambda **k: dict(basis=basis, data=data, method=method, **k)  # noqa: E731
+    model = ModelWeighted('w', RDMs(basis.copy()))
+
+    def call():
+        with cycle_guard():
+            return fit_regress_nn(model, RDMs(data.copy()), method=method)
+    ok, theta = ctx.guarded('optimal:fit_regress_nn', sig, call, data=wit, expect_exc=(np.linalg.LinAlgError,))
+    if not ok:
+        if isinstance(theta, np.linalg.LinAlgError):
+            ctx.count('rejected_singular')
+        return
+    ctx.count('rank_deficient_designs')
+    theta = np.asarray(theta, dtype=float).ravel()
+    ctx.case('optimal:fit_regress_nn', sig)
+    if theta.shape != (3,) or not np.all(np.isfinite(theta)) or np.any(theta < -1e-12):
+        ctx.fail('optimal:fit_regress_nn', dict(sig, what='negative_weight'), f'weights {theta}', wit(theta=theta))
+        return
+    keep = np.ones(npair, bool)
+    if any(np.ptp(d) < 1e-9 for d in data):
+        return
+    score = criterion(method, None, n_cond, keep)
+    s_hat = score(theta @ basis, data) if np.any(theta != 0) else -np.inf
+    best, best_c = -np.inf, None
+    for c in np.abs(rng.standard_normal((40, 3))).tolist() + np.eye(3).tolist():
+        sc = score(np.asarray(c) @ basis, data)
+        ctx.count('competitors_scored')
+        if sc > best:
+            best, best_c = sc, c
+    if np.isfinite(best) and best > 1e-7 and (not np.isfinite(s_hat) or best > s_hat + 1e-6):
+        ctx.fail('optimal:fit_regress_nn', dict(sig, what='beaten'), f'weights {theta.tolist()} score {s_hat!r}; the '
+                 f'non-negative competitor {best_c} scores {best!r}', wit(theta=theta, competitor=best_c))
+
+
 def run(ctx):
+    for _ in range(ctx.n(2500, 4000)):
+        run_rank_deficient(ctx)
     n = ctx.n(100, 300)
     for it in range(n):
         if ctx.out_of_time():
